@@ -96,7 +96,6 @@ func concRunOne(ri int, run *concRun, spin bool) (*concRunOut, error) {
 	cur := map[int]*concEvent{}   // client index -> template of the item in flight (Item, SKind)
 	callNo := map[int]int{}       // client index -> next call number of the script in flight
 	marks := map[string]int{}
-	port := t38.FreePort()
 	hook := func(s *server.Server, point string, args ...interface{}) {
 		switch point {
 		case "cmd.begin":
@@ -148,8 +147,7 @@ func concRunOne(ri int, run *concRun, spin bool) (*concRunOut, error) {
 			mu.Unlock()
 		}
 	}
-	t38.SetHook(port, hook)
-	srv, err := t38.Start(t38.Options{Port: port, Spinlock: spin})
+	srv, err := t38.Start(t38.Options{Hook: hook, Spinlock: spin})
 	if err != nil {
 		return nil, err
 	}
